@@ -54,10 +54,30 @@ def run(tier, rng, C):
                       'nontrivial': True, 'must_render': True})
         meta[cid] = {'l%d' % j: [('whole', 'l%d' % ln)] for j in range(ln)}
 
+    # paths with empty segments: a trailing / leading / doubled colon, a segment that renders to the empty
+    # string, the key with the empty name -- each segment is looked up as it stands
+    for i in range(40 if tier == 'quick' else 800):
+        has_empty = rng.random() < 0.6
+        cfg = [(S('x'), I(1))] + ([(S(''), rng.choice([I(5), S('five'), M(('y', I(2)))]))] if has_empty else [])
+        rng.shuffle(cfg)
+        form = rng.choice(['${cfg:}', '${cfg:${e}}', 'v=${cfg:}', '${:cfg}', '${cfg::x}', '${${e}}', '${cfg:${e}:y}', '${${e}:x}'])
+        es = [(S('cfg'), ('m', cfg)), (S('e'), S('')), (S('t'), S(form))]
+        if rng.random() < 0.3:
+            es.append((S(''), M(('x', I(9)))))          # a top-level parameter with the empty name
+        rng.shuffle(es)
+        layers = [('m', es)]
+        cid = C.case_id('e', i)
+        cases.append({'id': cid, 'line': V.stack_line(cid, 'value', layers), 'show': V.stack_show(layers), 'nontrivial': True})
+        meta[cid] = {}
+
     def oracle(cases, mobs, iobs):
         fails = []
         for c in cases:
             o = iobs.get(c['id'], '')
+            if obs_kind(o) in ('panic', 'abort', 'timeout'):
+                fails.append({'key': 'lookup-crashes', 'severity': 'fail', 'show': c['show'], 'lines': [c['line']],
+                              'reason': 'rendering did not return a value or an error', 'impl': C.describe(o), 'size': len(c['line'])})
+                continue
             if c.get('must_render') and obs_kind(o) != 'ok':
                 fails.append({'key': 'chain-rejected', 'severity': 'fail', 'show': c['show'], 'lines': [c['line']],
                               'reason': 'an acyclic chain of whole-value references within the depth limit did not render',
@@ -93,6 +113,6 @@ def run(tier, rng, C):
         return fails
     rule = ('%d acyclic-by-rank reference graphs over 2-8 keys (whole-value, embedded, list element, mapping value, layer, nested '
             'path references; targets of every kind incl. sub-paths) each with a twin whose entries are written in another '
-            'order, plus missing-path cases, plus chains of 2-63 whole-value references to targets of every kind; non-trivial = >= 2 referencing keys; oracles: out[k] == out@path on the '
+            'order, plus missing-path cases, plus chains of 2-63 whole-value references to targets of every kind, plus paths with empty segments (trailing / leading / doubled colon, a segment rendering to the empty string, the key with the empty name); non-trivial = >= 2 referencing keys; oracles: out[k] == out@path on the '
             'implementation\'s own output, twin equality, model/impl comparison' % n)
     return C.standard_run(cases, rule, key_fn=lambda c, m, i, r: 'model-impl-differ', extra_oracle=oracle)
